@@ -2059,22 +2059,101 @@ def _slice_contains(it, c, a):
     return BoolV(any(_key_eq(it, y, x) for y in list(v.items)))
 
 
-@model('Vec::sort_by_key', 'slice::sort_by_key', '[]::sort_by_key')
+def _flat_key(k):
+    """sort key -> flat list of (IntV, reversed?) components (tuples, newtypes, Reverse)"""
+    out = []
+
+    def go(v, rev):
+        v = deref(v)
+        if isinstance(v, IntV):
+            out.append((v, rev)); return
+        if isinstance(v, BoolV):
+            out.append((IntV((1 if v.v else 0) if not v.sym() else z3.If(v.v, z3.BitVecVal(1, 8), z3.BitVecVal(0, 8)), 8, 0), rev)); return
+        if isinstance(v, Agg) and v.kind in ('struct', 'tuple') and v.variant is None:
+            for f in v.fields:
+                go(f, rev != (v.name == 'Reverse'))
+            return
+        raise Unsupported('sort key component %r' % (v,))
+    go(k, False)
+    return out
+
+
+def _key_less(it, ka, kb):
+    """lexicographic ka < kb; forks on symbolic components"""
+    for (x, rx), (y, _) in zip(ka, kb):
+        if rx:
+            x, y = y, x
+        if not x.sym() and not y.sym():
+            xv, yv = x.v, y.v
+            if x.signed:
+                xv = xv - (1 << x.bits) if xv >> (x.bits - 1) else xv
+                yv = yv - (1 << y.bits) if yv >> (y.bits - 1) else yv
+            if xv != yv:
+                return xv < yv
+            continue
+        lt = (x.z() < y.z()) if x.signed else z3.ULT(x.z(), y.z())
+        r = it.choose([(lt, 'lt'), (x.z() == y.z(), 'eq'), (z3.And(z3.Not(lt), x.z() != y.z()), 'gt')])
+        if r != 'eq':
+            return r == 'lt'
+    return False
+
+
+@model('Vec::sort_by_key', 'slice::sort_by_key', '[]::sort_by_key', 'Vec::sort_unstable_by_key', 'slice::sort_unstable_by_key', '[]::sort_unstable_by_key')
 def _sort_by_key(it, c, a):
     v = deref(a[0]); xs = v.items if isinstance(v, VecV) or (isinstance(v, SliceV) and v.off == 0) else None
     if xs is None:
         raise Unsupported('sort_by_key on %r' % (v,))
     keyed = []
     for i, x in enumerate(xs):
-        k = it.call_closure(a[1], [RefV(xs, i)])
-        rev = False
-        while isinstance(k, Agg) and k.kind == 'struct' and len(k.fields) == 1:
-            rev = rev != (k.name == 'Reverse'); k = k.fields[0]
-        if not isinstance(k, IntV) or k.sym():
-            raise Unsupported('sort_by_key with a non-concrete key')
-        keyed.append((-k.v if rev else k.v, i, x))
-    keyed.sort(key=lambda t: (t[0], t[1]))          # stable
-    xs[:] = [t[2] for t in keyed]
+        keyed.append((_flat_key(it.call_closure(a[1], [RefV(xs, i)])), x))
+    # stable insertion sort; comparisons on symbolic keys fork the path
+    out = []
+    for k, x in keyed:
+        j = len(out)
+        while j > 0 and _key_less(it, k, out[j - 1][0]):
+            j -= 1
+        out.insert(j, (k, x))
+    xs[:] = [t[1] for t in out]
+    return UNIT
+
+
+@model('Itertools::dedup_by')
+@tmodel('Itertools', 'dedup_by')
+def _dedup_by(it, c, a):
+    src, clo = persist(it, a[0]), a[1]
+
+    def g():
+        last = None
+        for x in _drain_all(it, src):
+            if last is not None:
+                same = it.call_closure(clo, [RefV([last], 0), RefV([x], 0)])
+                if it.choose_bool(same):
+                    continue
+                yield last
+            last = x
+        if last is not None:
+            yield last
+    return PyIter(g())
+
+
+@model('Vec::dedup_by_key', 'Vec::dedup_by')
+def _vec_dedup_by(it, c, a):
+    v = deref(a[0])
+    if not isinstance(v, VecV):
+        return NotImplemented
+    bykey = c.split('::')[-1].startswith('dedup_by_key')
+    out = []
+    for x in list(v.items):
+        if out:
+            if bykey:
+                ka = it.call_closure(a[1], [RefV([x], 0)]); kb = it.call_closure(a[1], [RefV([out[-1]], 0)])
+                same = BoolV(not _key_less(it, _flat_key(ka), _flat_key(kb)) and not _key_less(it, _flat_key(kb), _flat_key(ka)))
+            else:
+                same = it.call_closure(a[1], [RefV([x], 0), RefV([out[-1]], 0)])
+            if it.choose_bool(same):
+                continue
+        out.append(x)
+    v.items[:] = out
     return UNIT
 
 
